@@ -157,6 +157,7 @@ theorem scene_matches (cfg : Config R) (ext : Ext R) (hext : ExtOk ext)
   · subst hcur
     obtain ⟨ms, h1, hv, _⟩ := assignStage_repaired hext Fixes.repaired rfl cfg.matcher m
       (toCost (scoreMatrixP cfg.red score cands m (([] : List (φ × R)).map (·.1))))
+      (colPattern_scoreMatrix _ _ _ _ _)
     have hlen : (toCost (scoreMatrixP cfg.red score cands m (([] : List (φ × R)).map (·.1)))).length = 0 := by
       rw [toCost_length, scoreMatrixP_length]; rfl
     rw [hlen] at hv
